@@ -156,6 +156,7 @@ inductive WState | stopped | running
 
 /-- where the worker THREAD is -/
 inductive ThPhase
+  | notSpawned   -- `pthread_create` has not been called yet
   | spawned      -- pthread_create done, wrapper has not stored RUNNING yet (hook point 1)
   | inproc       -- inside `worker->proc`
   | returned     -- proc returned, STOPPED not stored yet (hook point 2)
@@ -164,25 +165,54 @@ inductive ThPhase
   deriving Repr, DecidableEq
 
 structure Wk where
-  state : WState
+  state : WState := .stopped       -- calloc: ASYNC_WORKER_STOPPED = 0
   stopEv : Bool := false
-  th : ThPhase := .spawned
+  th : ThPhase := .notSpawned
   joined : Bool := false
   destroyed : Bool := false
   deriving Repr, DecidableEq
 
-/-- `async_worker_create` after the fix: the state is RUNNING from the moment the thread is requested -/
-def Wk.create : Wk := { state := .running }
+/-- atomic actions of the thread inside `async_worker_create` -/
+inductive CrAct
+  | store (v : WState)     -- `worker->state = v`
+  | spawn                  -- `pthread_create(...)` returns 0
+  deriving Repr, DecidableEq
 
-/-- one atomic step of the worker thread; `procReturns` = the user procedure returns now (it is arbitrary
-    code: the scheduler decides) -/
+def stateOfNat (n : Nat) : WState := if n = Gen.C19.workerRunning then .running else .stopped
+
+/-- `async_worker_create` AS THE SOURCE HAS IT (regenerated every run): the stores into `worker->state` in front of
+    the `pthread_create` call, the call, the stores behind it -/
+def createProg : List CrAct :=
+  (Gen.C19.createStoresBeforeSpawn.map fun n => CrAct.store (stateOfNat n)) ++ [.spawn] ++
+  (Gen.C19.createStoresAfterSpawn.map fun n => CrAct.store (stateOfNat n))
+
+def Wk.crStep (w : Wk) : CrAct → Wk
+  | .store v => { w with state := v }
+  | .spawn => { w with th := .spawned }
+
+/-- one atomic step of the worker thread (`worker_thread_proc`: store RUNNING; proc; store STOPPED; exit);
+    `procReturns` = the user procedure returns now (it is arbitrary code: the scheduler decides) -/
 def Wk.threadStep (w : Wk) (procReturns : Bool) : Wk :=
   match w.th with
+  | .notSpawned => w
   | .spawned => { w with state := .running, th := .inproc }
   | .inproc => if procReturns then { w with th := .returned } else w
   | .returned => { w with state := .stopped, th := .stored }
   | .stored => { w with th := .exited }
   | .exited => w
+
+/-- the whole thread at once (a procedure that returns immediately) -/
+def Wk.runThread (w : Wk) : Wk := (((w.threadStep true).threadStep true).threadStep true).threadStep true
+
+/-- `async_worker_create` run by one thread without interruption; `race` = the new thread runs to its end INSIDE the
+    `pthread_create` call, before the creator continues (short-lived worker, creator preempted) -/
+def Wk.createSeq (race : Bool) : List CrAct → Wk → Wk
+  | [], w => w
+  | .spawn :: rest, w => Wk.createSeq race rest (if race then (w.crStep .spawn).runThread else w.crStep .spawn)
+  | a :: rest, w => Wk.createSeq race rest (w.crStep a)
+
+/-- the worker as `async_worker_create` returns it, the new thread not having run yet -/
+def Wk.create : Wk := Wk.createSeq false createProg {}
 
 def Wk.signalStop (w : Wk) : Wk := { w with stopEv := true }
 
